@@ -185,6 +185,8 @@ def build_teams(model, g, names=True):
             team.append(model.rating(mu=m, sigma=s, name=("p%d" % k) if names else None))
             if names == "some" and (k % 3 == 1 or len(g["teams"]) % 2 == 0):
                 team[-1].name = None          # most applications never name their ratings: None is the default
+            elif names == "dup" and k % 2 == 1:
+                team[-1].name = "Guest"       # names are labels, not identities: several entrants may carry the same one
             k += 1
         teams.append(team)
     return teams
@@ -382,18 +384,23 @@ def run_impl_rate(g, cls=None):
     guest account): ids are labels, never keys."""
     model = build_model(g, cls)
     h = game_hash(g)
-    nm = "some" if h % 4 == 2 else True
+    nm = "some" if h % 4 == 2 else ("dup" if h % 4 == 3 else True)
     teams = with_user_subclass(build_teams(model, g, names=nm), h) if cls is None else build_teams(model, g, names=nm)
     if SHARED_ID_EVERY and h % SHARED_ID_EVERY == 1:
         CALL_STATS["shared_ids"] = CALL_STATS.get("shared_ids", 0) + 1
         flat = [p for t in teams for p in t]
         for p in ([t[0] for t in teams] if h // 7 % 2 else flat):
             p.id = flat[0].id
+    if nm != True:                                        # noqa: E712   (players told apart by object identity)
+        CALL_STATS["games_with_unnamed_or_same_named_players"] = CALL_STATS.get("games_with_unnamed_or_same_named_players", 0) + 1
+        keyf = lambda p: ("obj", id(p))                  # noqa: E731
+    else:
+        keyf = lambda p: p.name                           # noqa: E731
     slot = {}
     k = 0
     for t in teams:
         for p in t:
-            slot[p.name if p.name is not None else ("obj", id(p))] = k
+            slot[keyf(p)] = k
             k += 1
     try:
         res = call_rate(model, teams, g)
@@ -401,7 +408,7 @@ def run_impl_rate(g, cls=None):
         return ("EXC", type(e).__name__)
     out = []
     for t in res:
-        out.append([(slot.get(p.name if p.name is not None else ("obj", id(p)), -1), p.mu, p.sigma) for p in t])
+        out.append([(slot.get(keyf(p), -1), p.mu, p.sigma) for p in t])
     return ("OK", out)
 
 
@@ -473,7 +480,15 @@ def history_prelude(model, teams, g, h):
                 kw["ranks"] = list(g["oc"][1])
             elif g["oc"][0] == "S":
                 kw["scores"] = list(g["oc"][1])
-            model.rate(teams, **kw)
+            if (h // 96) % 2:
+                # ... or fails earlier, inside the tau step: a rating whose sigma is None is a rating object all the same
+                broken = model.rating(mu=g["beta"], sigma=g["beta"])
+                broken.sigma = None
+                teams2 = [list(t) for t in teams]
+                teams2[-1] = teams2[-1] + [broken]
+                model.rate(teams2, **kw)
+            else:
+                model.rate(teams, **kw)
         except _Abort:
             pass
         except Exception:  # noqa: BLE001   (the call under test will meet the same condition and report it)
@@ -681,7 +696,7 @@ def impl_teams(g, cls=None):
     """run rate on the implementation; -> list of teams of (mu, sigma) or raises"""
     model = build_model(g, cls)
     h = game_hash(g)
-    nm = "some" if h % 4 == 2 else True
+    nm = "some" if h % 4 == 2 else ("dup" if h % 4 == 3 else True)
     teams = with_user_subclass(build_teams(model, g, names=nm), h) if cls is None else build_teams(model, g, names=nm)
     if SHARED_ID_EVERY and h % SHARED_ID_EVERY == 1:
         CALL_STATS["shared_ids"] = CALL_STATS.get("shared_ids", 0) + 1
